@@ -88,6 +88,10 @@ type vfStore struct {
 	ShortAt func(path string, off int64, n int) int
 	// ReportSizeZero: files created from now on report size 0 in their attributes (a backend without sizes, procfs-like)
 	ReportSizeZero bool
+	// ViaWithContext: every handler method first derives its own request with Request.WithContext (the usual way
+	// to attach a deadline or a value) and works with the returned request only: its fields, its context. Listers
+	// then also refuse to list once the context they were created under is done.
+	ViaWithContext bool
 	// EagerEOF: a read that reaches the end of the file reports io.EOF together with its bytes, also when it
 	// filled the buffer (io.ReaderAt: "may return either err == EOF or err == nil" in that case)
 	EagerEOF bool
@@ -175,6 +179,16 @@ func (s *vfStore) Snapshot() string {
 		f.mu.Unlock()
 	}
 	return b.String()
+}
+
+type vfCtxKey struct{}
+
+// req is what a handler method works with: the request it was given, or (ViaWithContext) its own derivation of it.
+func (s *vfStore) req(r *Request) *Request {
+	if s.ViaWithContext {
+		return r.WithContext(context.WithValue(r.Context(), vfCtxKey{}, "vf"))
+	}
+	return r
 }
 
 func (s *vfStore) newObj(f *vfFile, path, kind string, r *Request) *vfObj {
@@ -272,6 +286,10 @@ func (o *vfObj) ListAt(out []os.FileInfo, off int64) (int, error) {
 			return 0, err
 		}
 	}
+	if o.st.ViaWithContext && o.ctx.Err() != nil {
+		// a lister bound to the context of the request that created it (a database cursor, a remote listing)
+		return 0, o.ctx.Err()
+	}
 	if off >= int64(len(o.list)) {
 		return 0, io.EOF
 	}
@@ -350,6 +368,7 @@ func baseName(p string) string {
 
 func (h vfHBase) open(r *Request, iface, kind string) (*vfObj, error) {
 	s := h.s
+	r = s.req(r)
 	s.record(vfCall{Iface: iface, Method: r.Method, Path: r.Filepath, Flags: r.Flags, Attrs: append([]byte(nil), r.Attrs...)})
 	if s.OpenErr != nil {
 		if err := s.OpenErr(r.Method, r.Filepath); err != nil {
@@ -400,6 +419,7 @@ func (h vfHBase) Filewrite(r *Request) (io.WriterAt, error) {
 
 func (h vfHBase) Filecmd(r *Request) error {
 	s := h.s
+	r = s.req(r)
 	s.record(vfCall{Iface: "FileCmd", Method: r.Method, Path: r.Filepath, Target: r.Target, Flags: r.Flags, Attrs: append([]byte(nil), r.Attrs...)})
 	if s.CmdErr != nil {
 		if err := s.CmdErr(r.Method, r.Filepath); err != nil {
@@ -467,6 +487,7 @@ func (h vfHBase) Filecmd(r *Request) error {
 
 func (h vfHBase) Filelist(r *Request) (ListerAt, error) {
 	s := h.s
+	r = s.req(r)
 	s.record(vfCall{Iface: "FileList", Method: r.Method, Path: r.Filepath})
 	if s.ListErr != nil {
 		if err := s.ListErr(r.Method, r.Filepath); err != nil {
@@ -528,6 +549,7 @@ func (h vfHOpenFile) OpenFile(r *Request) (WriterAtReaderAt, error) {
 type vfHCmdAll struct{ vfHBase }
 
 func (h vfHCmdAll) PosixRename(r *Request) error {
+	r = h.s.req(r)
 	h.s.record(vfCall{Iface: "PosixRename", Method: r.Method, Path: r.Filepath, Target: r.Target})
 	if h.s.CmdErr != nil {
 		if err := h.s.CmdErr(r.Method, r.Filepath); err != nil {
@@ -547,6 +569,7 @@ func (h vfHCmdAll) PosixRename(r *Request) error {
 }
 
 func (h vfHCmdAll) StatVFS(r *Request) (*StatVFS, error) {
+	r = h.s.req(r)
 	h.s.record(vfCall{Iface: "StatVFS", Method: r.Method, Path: r.Filepath})
 	if h.s.CmdErr != nil {
 		if err := h.s.CmdErr(r.Method, r.Filepath); err != nil {
@@ -559,6 +582,7 @@ func (h vfHCmdAll) StatVFS(r *Request) (*StatVFS, error) {
 type vfHListAll struct{ vfHBase }
 
 func (h vfHListAll) Lstat(r *Request) (ListerAt, error) {
+	r = h.s.req(r)
 	h.s.record(vfCall{Iface: "Lstat", Method: r.Method, Path: r.Filepath})
 	if h.s.ListErr != nil {
 		if err := h.s.ListErr(r.Method, r.Filepath); err != nil {
